@@ -191,6 +191,11 @@ func runC05(args []string) error {
 				// inputs that merely look like files of the set being written (same stem / same extension as out.par2)
 				name = []string{"out-2019.par2", "out2.par2", "outs/x.par2", "out.par2.orig", "OUT.PAR2.bak"}[(i+k)%5]
 			}
+			for _, prev := range names {
+				if prev == name { // the inputs are a SET of files
+					name = fmt.Sprintf("in%02d.bin", k)
+				}
+			}
 			sz := []int{1, s - 1, s, s + 1, 2*s + 1, 16383, 16384, 16385, 32768, 5*s + 2, 40000 + rng.Intn(30000)}[rng.Intn(11)]
 			if sz < 1 {
 				sz = 1
